@@ -31,7 +31,10 @@ Dims == [
   athash |-> {"correct", "absent", "ofOther", "wrongSize"},
   withAT |-> {TRUE, FALSE},
   alg    |-> {"ES256", "RS256", "ES384", "EdDSA"},
-  sig    |-> {"good", "foreign"} ]
+  sig    |-> {"good", "foreign"},
+  \* a claim the statement does not mention and that therefore decides nothing: the non-OIDC claim client_id (absent, the
+  \* verifier's client, another client) - e.g. it is no substitute for a missing azp
+  cidclaim |-> {"absent", "cid", "other"} ]
 
 CfgDims == [
   offset |-> {1, 0, 10},          \* seconds; rp.NewIDTokenVerifier default is 1 s
@@ -43,14 +46,20 @@ CfgDims == [
   \* WithSigningAlgsFromDiscovery()).IDTokenVerifier() against a discovery document
   \* rpRefresh / rpExchange: the same relying party verifies the ID token of a refresh-grant / code-exchange response
   \* (rp.RefreshTokens, rp.CodeExchange against a token endpoint that answers with the case's tokens)
-  via    |-> {"direct", "rpOIDC", "rpRefresh", "rpExchange"} ]
+  via    |-> {"direct", "rpOIDC", "rpRefresh", "rpExchange"},
+  \* what the same verifier / relying party did before the observed call.  Verification is a function of the token, the access token
+  \* delivered with it, the configuration and the clock - NOT of earlier calls: with "sameIDT" the very same ID token was verified
+  \* immediately before, together with the access token its at_hash names (a fitting pair whenever the ID token is valid by itself),
+  \* through the same entry point.  Verdicts and rules do not mention it.
+  prior  |-> {"none", "sameIDT"} ]
 
-Cfgs == [offset : CfgDims.offset, maxIAT : CfgDims.maxIAT, maxAge : CfgDims.maxAge, nonce : CfgDims.nonce, acr : CfgDims.acr, via : CfgDims.via]
+Cfgs == [offset : CfgDims.offset, maxIAT : CfgDims.maxIAT, maxAge : CfgDims.maxAge, nonce : CfgDims.nonce, acr : CfgDims.acr, via : CfgDims.via,
+         prior : CfgDims.prior]
 
 \* the token that is valid, with margin, under configuration cfg
 Base(cfg) == [iss |-> "ok", sub |-> "present", aud |-> "cid", azp |-> "absent", exp |-> 3600, iat |-> -3, auth |-> -3,
               nonce |-> IF cfg.nonce = "n1" THEN "n1" ELSE "absent", acr |-> "allowed", athash |-> "correct", withAT |-> TRUE,
-              alg |-> "ES256", sig |-> "good"]
+              alg |-> "ES256", sig |-> "good", cidclaim |-> "absent"]
 
 TokFields == DOMAIN Dims
 Dev1(S) == S \cup UNION {UNION {{[t EXCEPT ![f] = v] : v \in Dims[f]} : f \in TokFields} : t \in S}
@@ -59,15 +68,15 @@ Depth == IF Tier = "quick" THEN 2 ELSE 3
 Toks(cfg) == LET d1 == Dev1({Base(cfg)})  d2 == Dev1(d1) IN IF Depth = 2 THEN d2 ELSE Dev1(d2)
 
 \* thorough: depth-3 deviations only around the default configuration and its single-dimension deviations
-BaseCfg == [offset |-> 1, maxIAT |-> 30, maxAge |-> 60, nonce |-> "n1", acr |-> "allowed", via |-> "direct"]
+BaseCfg == [offset |-> 1, maxIAT |-> 30, maxAge |-> 60, nonce |-> "n1", acr |-> "allowed", via |-> "direct", prior |-> "none"]
 NearCfgs == {BaseCfg} \cup UNION {{[BaseCfg EXCEPT ![f] = v] : v \in CfgDims[f]} : f \in DOMAIN CfgDims}
-              \cup {[offset |-> 1, maxIAT |-> 0, maxAge |-> 0, nonce |-> "default", acr |-> "nil", via |-> "direct"]}
+              \cup {[offset |-> 1, maxIAT |-> 0, maxAge |-> 0, nonce |-> "default", acr |-> "nil", via |-> "direct", prior |-> "none"]}
 
 Groups == Cfgs
 CasesOf(cfg) ==
   LET d1 == Dev1({Base(cfg)})  d2 == Dev1(d1)
       \* verifiers obtained through the relying-party constructor: the single-dimension deviations (quick), two (thorough)
-      ts == IF cfg.via # "direct" THEN (IF Tier = "quick" THEN d1 ELSE d2)
+      ts == IF cfg.via # "direct" \/ cfg.prior # "none" THEN (IF Tier = "quick" THEN d1 ELSE d2)
             ELSE IF Tier = "quick" \/ cfg \notin NearCfgs THEN d2 ELSE Dev1(d2)
       \* a token response always delivers the access token next to the ID token
       us == IF cfg.via \in {"rpRefresh", "rpExchange"} THEN {t \in ts : t.withAT} ELSE ts IN
